@@ -2,7 +2,8 @@
    by the peer process (the Rust harness) with the real primitive of the library.
    Protocol: line based on stdin/stdout, fields separated by one space, byte strings and UTF-8
    text as lowercase hex ("-" for empty).  Hand-written and trusted for parsing / printing only;
-   a sample of cases is re-evaluated inside Coq (cases.v) and must agree with this driver. *)
+   a sample of oracle-free commands is re-evaluated inside Coq (vlib.cross_check_extraction) at every build
+   and must agree with this driver. *)
 
 module SL = Stdlib.List
 module SS = Stdlib.String
